@@ -176,8 +176,71 @@ fn make_state<R: Rh>(k: usize, rng: &mut Rng) -> (String, Vec<R::F>) {
         7 => ("alt-representation".into(), (0..w).map(|i| R::alt(rng.pick(&b), i + k)).collect()),
         8 => ("alt-representation-random".into(), (0..w).map(|i| R::alt(rng.below(p), i + k)).collect()),
         9 => ("iota".into(), (0..w).map(|i| R::new(i as u64 + (k / 12) as u64)).collect()),
+        11 if p == crate::hashers::P64 => ("mds-carry".into(), mds_carry_state::<R>(k / 12, rng)),
         _ => ("random".into(), (0..w).map(|_| R::new(rng.below(p))).collect()),
     }
+}
+
+fn gcd(a: u64, b: u64) -> u64 {
+    if b == 0 {
+        a
+    } else {
+        gcd(b, a % b)
+    }
+}
+
+/// 64-bit hashers: a state whose S-box image, in Montgomery words, makes one row of the integer
+/// matrix-vector product  sum_j MDS[r][j] * word_j  land just below a multiple of 2^64 with a non-zero
+/// high part — the carry / overflow corner of the split-limb reduction at the end of the FFT-based
+/// mds_multiply (crypto/src/hash/mds) that random states reach with probability about 2^-25.
+/// variant even: the folded sum overflows 64 bits; odd: it stops just short of overflowing.
+fn mds_carry_state<R: Rh>(variant: usize, rng: &mut Rng) -> Vec<R::F> {
+    let (w, p) = (R::W, R::P);
+    let mds = R::mds();
+    let inv_r64 = powmod(powmod(2, 64, p), p - 2, p);
+    for _ in 0..1000 {
+        let row = (rng.next() % w as u64) as usize;
+        let j1 = (rng.next() % w as u64) as usize;
+        let j2 = (rng.next() % w as u64) as usize;
+        let (c1, c2) = (mds[row][j1], mds[row][j2]);
+        if j1 == j2 || gcd(c1, c2) != 1 || c1 < 2 {
+            continue;
+        }
+        let kmax = (c1 + c2 - 1).min(40);
+        let k = 2 + rng.next() % (kmax - 1); // high part k - 1 >= 1
+        let z = (k as u128 - 1) * 0xFFFF_FFFF;
+        let delta = if variant % 2 == 0 { rng.next() as u128 % z.min(1 << 20) } else { z + rng.next() as u128 % (1 << 12) };
+        let t: u128 = ((k as u128) << 64) - 1 - delta;
+        // c1 * a + c2 * b = t with 0 <= a, b < p
+        let inv_c2 = (1..c1).find(|x| (c2 % c1) * x % c1 == 1 % c1).unwrap_or(0);
+        let b0 = ((t % c1 as u128) as u64 * inv_c2) % c1;
+        let hi = (t / c2 as u128).min(p as u128 - 1);
+        let lo = t.saturating_sub(c1 as u128 * (p as u128 - 1)).div_ceil(c2 as u128);
+        if lo > hi {
+            continue;
+        }
+        let mut b = lo + (rng.next() as u128) % (hi - lo + 1);
+        b = b - (b % c1 as u128) + b0 as u128;
+        if b > hi {
+            b -= c1 as u128;
+        }
+        if b < lo || (t - c2 as u128 * b) % c1 as u128 != 0 {
+            continue;
+        }
+        let a = (t - c2 as u128 * b) / c1 as u128;
+        if a >= p as u128 {
+            continue;
+        }
+        // words -> values -> pre-images under the S-box
+        let mut words = vec![0u64; w];
+        words[j1] = a as u64;
+        words[j2] = b as u64;
+        return words
+            .iter()
+            .map(|&wd| R::new(powmod(mulmod(wd, inv_r64, p).0, R::INV_ALPHA, p)))
+            .collect();
+    }
+    (0..w).map(|_| R::new(rng.below(p))).collect()
 }
 
 struct Sink {
@@ -234,7 +297,7 @@ fn record_solo<R: Rh>(out: &mut Sink, pid: usize, class: &str, state: &[R::F], r
     out.emit(&ev);
 }
 
-fn run<R: Rh>(seed: u64, n_perm: usize, n_solo: usize, path: &str) -> i32 {
+fn run<R: Rh>(seed: u64, classes: &[usize], n_solo: usize, path: &str) -> i32 {
     let f = std::fs::File::create(path).expect("create trace");
     let mut out = Sink { w: std::io::BufWriter::new(f), n: 0 };
     let mut rng = Rng(seed ^ 0xC16 ^ ((R::W as u64) << 32) ^ R::P);
@@ -247,7 +310,7 @@ fn run<R: Rh>(seed: u64, n_perm: usize, n_solo: usize, path: &str) -> i32 {
     let katin: Vec<R::F> = (0..R::W).map(|i| R::new(i as u64)).collect();
     record_perm::<R>(&mut out, pid, "kat", &katin, true);
     pid += 1;
-    for k in 0..n_perm {
+    for &k in classes {
         let (class, st) = make_state::<R>(k, &mut rng);
         record_perm::<R>(&mut out, pid, &class, &st, false);
         pid += 1;
@@ -268,16 +331,16 @@ fn run<R: Rh>(seed: u64, n_perm: usize, n_solo: usize, path: &str) -> i32 {
 
 pub fn main(args: &[String]) -> i32 {
     if args.len() < 5 {
-        eprintln!("usage: wf-rescue perm <rp64|jive|rp62> <seed> <n_perm> <n_solo> <out.ndjson>");
+        eprintln!("usage: wf-rescue perm <rp64|jive|rp62> <seed> <class,class,..> <n_solo> <out.ndjson>");
         return 2;
     }
     let seed: u64 = args[1].parse().unwrap_or(1);
-    let n_perm: usize = args[2].parse().unwrap_or(4);
+    let classes: Vec<usize> = args[2].split(',').filter(|s| !s.is_empty()).filter_map(|s| s.parse().ok()).collect();
     let n_solo: usize = args[3].parse().unwrap_or(0);
     match args[0].as_str() {
-        "rp64" => run::<Rp64>(seed, n_perm, n_solo, &args[4]),
-        "jive" => run::<Jive>(seed, n_perm, n_solo, &args[4]),
-        "rp62" => run::<Rp62>(seed, n_perm, n_solo, &args[4]),
+        "rp64" => run::<Rp64>(seed, &classes, n_solo, &args[4]),
+        "jive" => run::<Jive>(seed, &classes, n_solo, &args[4]),
+        "rp62" => run::<Rp62>(seed, &classes, n_solo, &args[4]),
         _ => 2,
     }
 }
